@@ -23,6 +23,10 @@ impl<'a> Gram<'a> {
         Gram { rng, budget, format_directives: false, imports: false }
     }
 
+    pub fn pick_below(&mut self, n: usize) -> usize {
+        self.rng.below(n)
+    }
+
     fn low(&mut self) -> bool {
         self.budget -= 1;
         self.budget <= 0
@@ -49,6 +53,23 @@ impl<'a> Gram<'a> {
     }
 
     pub fn literal(&mut self) -> String {
+        if self.rng.chance(1, 8) {
+            // string literals with raw line breaks, blanks before a line break, non-ASCII content
+            return (*self.rng.pick(&[
+                "\"a\nb\"",
+                "\"first  \n  second\n\"",
+                "\"\n\"",
+                "\"tab\there\"",
+                "\"é λ 🙂\"",
+                "\"-- not a comment\"",
+                "\"/- nor this -/\"",
+                "\"line\n      indented continuation\nlast\"",
+                "'|'",
+                "'\\''",
+                "' '",
+            ]))
+            .to_string();
+        }
         match self.rng.below(8) {
             | 0 => format!("{}", self.rng.range(-1000, 1000)),
             | 1 => format!("+{}", self.rng.below(100)),
@@ -274,7 +295,16 @@ impl<'a> Gram<'a> {
                 let ty = if self.rng.chance(1, 3) { format!(" : {}", self.tight(d)) } else { String::new() };
                 format!("{} {}{}{}{}{} = {} {}{}{}", kw, bang, fix, self.pattern(2), params, ty, self.term(d), self.placement(), self.sp(), self.term(d))
             }
-            | 18 => format!("{} {}", self.annotation(), self.tight(d)),
+            | 18 => {
+                if self.format_directives && self.rng.chance(1, 3) {
+                    // a directive inside the payload of another directive
+                    let outer = self.annotation();
+                    let inner = self.annotation();
+                    let (a, b, c) = (self.atom(d), self.atom(d), self.atom(d));
+                    return format!("{} {} ({} {}){}{}", outer, a, inner, b, self.sp(), c);
+                }
+                format!("{} {}", self.annotation(), self.tight(d))
+            }
             | 19 => format!("@({})", self.meta(2)),
             | _ => self.atom(depth),
         }
